@@ -179,8 +179,8 @@ where
         let standard_deviation = self.variance.clone().sqrt();
         let two = T::one() + T::one();
         let two_pi = &two * T::pi();
-        let fraction = T::one() / (standard_deviation * (&two_pi.sqrt()));
-        let exponent = (-T::one() / &two) * ((x - &self.mean) / &self.variance).pow(&two);
+        let fraction = T::one() / (&standard_deviation * (&two_pi.sqrt()));
+        let exponent = (-T::one() / &two) * ((x - &self.mean) / &standard_deviation).pow(&two);
         fraction * exponent.exp()
     }
 
